@@ -4,6 +4,7 @@ package main
 // of functions by contract key.
 
 import (
+	"regexp"
 	"bufio"
 	"fmt"
 	"go/token"
@@ -27,6 +28,7 @@ type Prog struct {
 	byPath     map[string]*packages.Package
 	cs         *ContractSet
 	fnByKey    map[string]*ssa.Function
+	constGlobals map[string]*constGlobal
 	epochs     int
 	effFree    []string
 	modClasses map[string]map[string]string
@@ -134,6 +136,53 @@ func LoadProg(repo, verif string, pkgPaths []string, cs *ContractSet) (*Prog, er
 		}
 		sp.Build()
 		p.indexPackage(sp)
+	}
+	// sweeps: an instance of the template contract for every matching function without a contract
+	for _, sw := range cs.Sweeps {
+		re, err := regexp.Compile(sw.Pattern)
+		if err != nil {
+			return nil, fmt.Errorf("%s:%d: sweep pattern: %v", sw.Con.File, sw.Con.Line, err)
+		}
+		var ks []string
+		for k, f := range p.fnByKey {
+			if f.Pkg == nil || f.Pkg.Pkg.Path() != sw.PkgPath || len(f.Blocks) == 0 || f.Synthetic != "" {
+				continue
+			}
+			if _, has := cs.Funcs[k]; has {
+				continue
+			}
+			short := strings.Replace(k, sw.PkgPath+".", "", 1)
+			if re.MatchString(short) {
+				ks = append(ks, k)
+			}
+		}
+		sort.Strings(ks)
+		for _, k := range ks {
+			c := *sw.Con
+			c.Key = strings.Replace(k, sw.PkgPath+".", "", 1)
+			c.Swept = true
+			cs.Funcs[k] = &c
+		}
+	}
+	// table-entry contracts name their function literal by position
+	if len(cs.TablePos) > 0 {
+		byPos := map[string]*ssa.Function{}
+		for _, f := range p.fnByKey {
+			if f.Parent() == nil || f.Pkg == nil || !f.Pos().IsValid() {
+				continue
+			}
+			ps := p.fset.Position(f.Pos())
+			byPos[fmt.Sprintf("%s|%s:%d:%d", f.Pkg.Pkg.Path(), filepath.Base(ps.Filename), ps.Line, ps.Column)] = f
+		}
+		for fk, pos := range cs.TablePos {
+			c := cs.Funcs[fk]
+			if c == nil {
+				continue
+			}
+			if f, ok := byPos[c.PkgPath+"|"+pos]; ok {
+				p.fnByKey[fk] = f
+			}
+		}
 	}
 	return p, nil
 }
